@@ -32,6 +32,7 @@ DIMS = {
     "shared_grad": [False, True],
     "grad_twice": [False, True],
     "vb_b": ["same", "wide", "offset", "half"],
+    "clone": ["none", "wide"],
     "lin_vec": ["bbox_h", "diag", "vert", "pct", "short", "user"],
     "lin_gt": ["none", "rot", "nonuniform", "skew", "translate", "involutory", "rotscale"],
     "lin_spread": ["pad", "repeat", "reflect"],
@@ -318,6 +319,10 @@ def mk(a):
         c2 = Shape(P(od, aff.mul(aff.tr(70, 70), aff.rot(200))), Solid("purple"), label="copy2")
         glyphs.append(Glyph((0xE003,), vb, [Shape(P(OUT["oval"], aff.tr(5, 5)), Solid("orange"), label="oval-o"), c2]))
     glyphs += extra_glyphs if n != 1 else []
+    if a.get("clone", "none") == "wide":
+        # one more glyph with glyph A's shapes *verbatim* (the same path strings, the same paints) in a viewBox twice as wide:
+        # identical source geometry, another place in the em (anything keyed on the source text alone confuses the two)
+        glyphs.append(Glyph((0xE004,), (vb[0], vb[1], vb[2] * 2, vb[3]), list(a_nodes)))
     upem, asc, desc = a["metrics"]
     over = {
         "upem": upem, "ascender": asc, "descender": desc, "width": a["width"], "reuse_tolerance": a["tol"],
